@@ -71,7 +71,7 @@ Lemma call_is_body defs fuel pre d post name args parent sc sc1 :
   str_eqb (m_name d) name = true -> m_body d <> [] ->
   bind_params (m_params d) args sc = Some sc1 ->
   call_mixin defs (S fuel) name args parent sc =
-    eval_body (call_mixin defs fuel) parent (add_variable $"@arguments" (arguments_value args) sc1) (m_body d).
+    eval_body (call_mixin defs fuel) parent (add_variable $"@arguments" (arguments_of (m_params d) args) sc1) (m_body d).
 Proof.
   intros -> Hpre Hn Hb Hp. cbn [call_mixin]. generalize (call_mixin (pre ++ d :: post) fuel). intros callrec.
   induction pre as [|x pr IH]; cbn [app try_defs].
